@@ -48,6 +48,24 @@ func (r *Run) errPropScan(rel string, fileFilter func(name string) bool) (sites 
 				continue
 			}
 			fname := prog.RelPkg(pkg.PkgPath) + "." + declName(fd)
+			// a function that did not exist when the exception table was confirmed (an extracted
+			// helper) is reported under, and excused like, the function that calls it
+			if obj, ok := info.Defs[fd.Name].(*types.Func); ok {
+				if fi := r.P.FuncInfoOf(obj); fi != nil && !baselineFuncs()[fi.Name()] {
+					cur := fi
+					for depth := 0; depth < 3; depth++ {
+						c := r.singleCaller(cur)
+						if c == nil || c == cur {
+							break
+						}
+						cur = c
+						if baselineFuncs()[cur.Name()] {
+							break
+						}
+					}
+					fname = cur.Name()
+				}
+			}
 			s, n := errPropFunc(r.P, info, fname, fd.Type, fd.Body)
 			sites = append(sites, s...)
 			nDefs += n
